@@ -617,7 +617,7 @@ Section Examples.
 
   (* tier walk: gang + conformance in one tier, preemptor of another (unknown-priority) job *)
   Let E0 : env :=
-    mkEnv [[mkPlug KConf true true; mkPlug KGang true true]] ∅ ∅ {[12%positive]} ∅.
+    mkEnv [[mkPlug KConf true true; mkPlug KGang true true]] ∅ ∅ {[12%positive]} ∅ [].
   Let pre0 : task :=
     mkTask 21%positive 2%positive 1%positive 1%positive 9 r1 r1 false true Pending None.
 
@@ -626,14 +626,14 @@ Section Examples.
 
   (* with t1 critical instead, the tier's agreement is empty and nobody is selected *)
   Let E1 : env :=
-    mkEnv [[mkPlug KConf true true; mkPlug KGang true true]] ∅ ∅ {[11%positive]} ∅.
+    mkEnv [[mkPlug KConf true true; mkPlug KGang true true]] ∅ ∅ {[11%positive]} ∅ [].
   Example ex_victims_none : victims 1 E1 AInter s0 pre0 [t1; t2; t3] = [].
   Proof. vm_compute. reflexivity. Qed.
 
   (* proportion: queue 1 deserves 2000; its share is 3000; one victim brings it to 2000 <= deserved *)
   Let E2 : env :=
     mkEnv [[mkPlug KProp true true]] ∅ ∅ ∅
-          {[1%positive := mkQx true true true (mkRes 2000 2000 None) (mkRes 2000 2000 None) (mkRes 2000 2000 None)]}.
+          {[1%positive := mkQx true true true (mkRes 2000 2000 None) (mkRes 2000 2000 None) (mkRes 2000 2000 None)]} [].
   Example ex_prop_vote : prop_vote 1 E2 s0 [t1; t2; t3] = [t1].
   Proof. vm_compute. reflexivity. Qed.
 End Examples.
